@@ -164,6 +164,14 @@ func (d Def) String() string {
 	}
 	switch d.DatumKind {
 	case "name":
+		if len(d.Towgs) > 0 {
+			// a +towgs84 clause next to a named datum: the table entry of the name replaces it (as in proj4js)
+			s := make([]string, len(d.Towgs))
+			for i, v := range d.Towgs {
+				s[i] = f(v)
+			}
+			w("+towgs84=" + strings.Join(s, ","))
+		}
 		w("+datum=" + d.Datum)
 	case "towgs":
 		s := make([]string, len(d.Towgs))
